@@ -134,3 +134,9 @@ package excellent
 //@   requires x != nil && x.Value != nil
 //@   assigns nothing
 //@   ensures [quoted] result == strconv.Quote(x.Value.native)
+
+// C04: the one caller of types.NewXError outside the swept packages hands it an error that exists (the representation
+// invariant of XError - it always wraps an error - rests on every caller doing so)
+//@ func (e *Evaluator) Expression
+//@   havocs Parse, NewScope, Evaluate
+//@   assigns computed
